@@ -40,3 +40,21 @@ def families(tier, seed):
     if tier == "quick":
         return [("pm", seed, 1500, ["k"]), ("pm", seed, 1500, ["c06"])]
     return [("pm", seed, 4000, ["k"]), ("pm", seed + 1000, 4000, ["k"]), ("pm", seed, 3000, ["c06"])]
+
+
+# ------------------------------------------------------------------------------------------------------------------------------
+# COMPOSED end-to-end model (branch compose; Model/Compose.lean, notes/compose.md) — purely additive block.
+# Primitive setup only on the K line; the model recomputes indices, angles, walk-off, k_eff, apodisation AND the integrand /
+# Simpson z-integral from them.  Observed worst: integrand 6.3e-16 of the modulus, z-integral 3.9e-16 of the absolute
+# quadrature sum (3 seeds × 3000 setups).
+OPS = set(OPS) | {"cmp_integrand", "cmp_pm_coinc"}
+TOL = dict(TOL)
+TOL.update({"cmp_integrand": ("crel", 5e-14), "cmp_pm_coinc": ("csum", 5e-14)})
+RULE += ' | family compose/c06: the same primitive-setup generator as compose/c03 × 2 frequency pairs (centre, detuned): get_pm_integrand at z = −1, 1, 0 and two random z; phasematch_fiber_coupling for Simpson divs ∈ {6,7,10,20,33,50,100}'
+LEVEL_NOTE += ' COMPOSED MODEL (notes/compose.md): the cmp_* K ops are NOT layered — their K line carries only the primitive setup (crystal id, angles, length, temperature, PM type, wavelengths, internal signal/idler angles, waists, waist positions, bandwidth, power, threshold, deff, signed poling period + window) and Spdc.Model.Compose recomputes the printed quantity through every layer model (Crystals → Index → Beam/Units → DeltaK → Poling → PM → Quad → Norm/Jsa → Singles); the real side is an SPDC rebuilt from exactly these primitives by Beam::new / PumpBeam::from / PeriodicPoling::new / SPDC::new (+ assign_optimum_idler for idler "auto"). Outside the composition (their RESULTS are primitives): Snell inverse, optimum_theta, optimum_poling_period.'
+CHECKER_MODULES = list(CHECKER_MODULES) + ["Spdc.Real.ComposeLemmas"]
+_families_layered = families
+
+
+def families(tier, seed):
+    return _families_layered(tier, seed) + [("compose", seed, 3000 if tier == "quick" else 30000, ["c06"])]
